@@ -563,7 +563,7 @@ CHECKS: List[Tuple[str, Tuple[str, ...], Callable[[], Any], str]] = [
     ('S.registry.dbml', ('C16', 'C02'), s_registry_dbml, 'the DBML renderer registry is exactly {model class: its handler}'),
     ('S.registry.dispatch', ('C16',), s_registries_separate, 'each default renderer owns its registry; BaseRenderer.render dispatches on the exact type, falling back to the empty string'),
     ('S.setattr', ('C09', 'C10'), s_setattr_passthrough, 'SQLObject.__setattr__ is a pure pass-through (attribute stores are plain stores)'),
-    ('S.eq-fields', ('C06', 'C09'), s_compare_fields, 'structural equality compares every attribute except the back-pointers (and, for references, inline-ness and comment)'),
+    ('S.eq-fields', ('C06', 'C09', 'C10'), s_compare_fields, 'structural equality compares every attribute except the back-pointers (and, for references, inline-ness and comment)'),
     ('S.required', ('C17',), s_required_attributes, 'required_attributes cover the attributes whose absence must be refused'),
     ('S.no-mutable-defaults', ('C11', 'C18', 'C16'), s_no_mutable_defaults, 'no function of pydbml has a mutable default argument'),
     ('S.no-global-state', ('C11',), s_no_global_state, 'no global/nonlocal statement, no packrat cache, no class-level mutable attribute on model/blueprint/parser classes'),
